@@ -217,6 +217,8 @@ impl<'r> TryFrom<&'r [u8]> for Response<'r> {
                     _ => unreachable!(),
                 }
             }
+            #[cfg(feature = "rtu")]
+            F::ReadExceptionStatus => Self::ReadExceptionStatus(bytes[1]),
             _ => Self::Custom(FunctionCode::new(fn_code), &bytes[1..]),
         };
         Ok(rsp)
@@ -390,6 +392,8 @@ const fn min_response_pdu_len(fn_code: FunctionCode) -> usize {
         | F::ReadWriteMultipleRegisters => 2,
         F::WriteSingleCoil => 3,
         F::WriteMultipleCoils | F::WriteSingleRegister | F::WriteMultipleRegisters => 5,
+        #[cfg(feature = "rtu")]
+        F::ReadExceptionStatus => 2,
         _ => 1,
     }
 }
